@@ -50,7 +50,7 @@ VIX = "dask_array.slicing._vindex"
 ARG = "dask_array.creation._arange"
 DB = "dask.blockwise"
 MT = "dask_array._materialize"
-MODS = [MT, "dask_array.core._blockwise_funcs", "dask_array.core._conversion", EX, BW, CU, RC, FA, IOB, SB, SU, "dask_array.slicing", CO, NC, TR, XP, SQ, BT, CC, SK, RD, RCM, SHF, VIX, ARG, "dask_array._overlap", "dask_array._map_blocks", "dask_array._chunk", "dask.layers", "dask_array.reductions._sliding_window", "dask_array.manipulation._reshape", "dask_array.reductions._arg_reduction", "dask_array.creation._diag", "dask_array.creation._diagonal", "dask_array.routines._unique", "dask_array.creation._ones_zeros", "dask_array.creation._utils", "dask_array.routines._topk", "dask_array.io._from_graph", "dask_array.manipulation._roll", "dask_array.manipulation._flip", "dask_array.creation._tile", "dask_array.creation._pad", "dask_array.creation._repeat", "dask_array.routines._diff", "dask_array.reductions._cumulative", "dask_array.routines._where", "dask_array.stacking._block", "dask_array.stacking._simple", "dask_array.routines._insert_delete", "dask_array.routines._triangular", "dask_array.routines._outer", "dask_array._ufunc", DB]
+MODS = [MT, "dask_array.core._blockwise_funcs", "dask_array.core._conversion", EX, BW, CU, RC, FA, IOB, SB, SU, "dask_array.slicing", CO, NC, TR, XP, SQ, BT, CC, SK, RD, RCM, SHF, VIX, ARG, "dask_array._overlap", "dask_array._map_blocks", "dask_array._chunk", "dask.layers", "dask_array.reductions._sliding_window", "dask_array.manipulation._reshape", "dask_array.reductions._arg_reduction", "dask_array.creation._diag", "dask_array.creation._diagonal", "dask_array.routines._unique", "dask_array.creation._ones_zeros", "dask_array.creation._utils", "dask_array.routines._topk", "dask_array.io._from_graph", "dask_array.manipulation._roll", "dask_array.manipulation._flip", "dask_array.creation._tile", "dask_array.creation._pad", "dask_array.creation._repeat", "dask_array.routines._diff", "dask_array.reductions._cumulative", "dask_array.routines._where", "dask_array.stacking._block", "dask_array.stacking._simple", "dask_array.routines._insert_delete", "dask_array.routines._triangular", "dask_array.routines._outer", "dask_array._ufunc", "dask_array.routines._gradient", DB]
 STUBS = SHIM_LIST + [
     "concatenate3 -> the array model's nested concatenation (called by the repository's own finalize and as a block kernel)",
     "expression classes -> symx.nodes (real methods on cloned code; constructors/tokenize bypassed, structural names); the "
@@ -622,6 +622,14 @@ def p_pub_many(w, ps, module, name, ref, *a, **k):
     return Prog(out.expr, ref([q.ref for q in ps]), dsk)
 
 
+def p_gradient(w, E, p, axes, k, h=1):
+    """da.gradient(x, h, axis=axes)[k]: the derivative along axes[k] (unit or scalar spacing, edge_order=1)"""
+    coll = w.fn(NC, "new_collection")(p.node)
+    outs = w.fn("dask_array.routines._gradient", "gradient")(coll, h, axis=tuple(axes))
+    ref = np.gradient(p.ref, h, axis=axes[k])
+    return Prog(outs[k].expr, ref, p.dsk)
+
+
 def p_take(w, E, p, axis, index):
     """x[..., [i, j, ...], ...] through Array.__getitem__ (normalize_index -> slice_wrap_lists -> take -> Shuffle);
     the index values are concrete, the axis is long enough to hold them"""
@@ -770,6 +778,9 @@ def programs(tier):
     reg("hstack([x2,y2])", lambda w, E: p_pub_many(w, [source(w, E, "x", (2,)), source(w, E, "y", (2,))], SIm, "hstack", lambda R: np.concatenate(R)), 2)
     reg("append(x2,y2)", lambda w, E: (lambda a, b: Prog(w.fn(IDm, "append")(w.fn(NC, "new_collection")(a.node), w.fn(NC, "new_collection")(b.node)).expr,
                                                             np.concatenate([a.ref, b.ref]), {**a.dsk, **b.dsk}))(source(w, E, "x", (2,)), source(w, E, "y", (2,))), 2)
+    reg("gradient(x2,axis=(0,))[0]", lambda w, E: p_gradient(w, E, source(w, E, "x", (2,), lo=2), (0,), 0), 3)
+    reg("gradient(x2x2,2.0,axis=(1,0))[0]", lambda w, E: p_gradient(w, E, source(w, E, "x", (2, 2), lo=2), (1, 0), 0, 2.0), 4)
+    reg("gradient(x2x2,2.0,axis=(1,0))[1]", lambda w, E: p_gradient(w, E, source(w, E, "x", (2, 2), lo=2), (1, 0), 1, 2.0), 4)
     # point-wise indexing with two integer arrays (entries enumerated by forking; sizes of the other axes symbolic)
     reg("x(2,1)x2.vindex[[p,q],:]... two arrays: x.vindex[[p0,p1],:,[q0,2]]", lambda w, E: _vindex_prog(w, E, ((2, 1), "s", (1, 2)), 2, {(2, 1): 2}), 9)
     reg("x.vindex[:,[p0,1],:,[q0,q1]] (4-d, separated axes)", lambda w, E: _vindex_prog(w, E, ("s", (1, 1), "s", (2,)), 2, {(1, 1): 1}), 9)
